@@ -58,6 +58,9 @@ def runs(tier):
         kind = ("ds", "df")[j % 2]
         m = dict(sweep.META0, tdim=(kind == "ds" and j % 4 == 0), cattr=(j % 3 == 0), res=(j % 2 == 0))
         cfgs.append(mk(g, kind=kind, meta=m, shuffle=(j % 3 != 0), pool=(j % 5 == 0)))
+    cfgs.append(mk([11, 2], kind="ds", meta=dict(sweep.META0, tdim=True), shuffle=True))
+    cfgs.append(mk([12], kind="df", meta=dict(sweep.META0, cattr=True), shuffle=True))
+    cfgs.append(mk([2], nca=1, cases=[[v] for v in (11, 3, 7, 1, 9, 12, 5, 2, 10, 4, 8)], kind="ds", meta=dict(sweep.META0), shuffle=True))
     out.append(dict(name="C03_big", configs=cfgs, max_perm=4, check=False, simulate=60 if tier == "quick" else 800, depth=200))
     return out
 
